@@ -220,6 +220,9 @@ CHECKS = {
             {"name": "xfer", "pkg": X, "run": "^TestVerifC04|^TestVerifC0405", "common": {"env": {"VERIF_CRASH_PROP": "C04"}},
              "quick": {"checks": 220, "shards": 8, "timeout": 900},
              "thorough": {"checks": 300, "shards": 16, "timeout": 3400}},
+            {"name": "srv", "pkg": "./internal/verifsrv", "run": "^TestVerifC04", "binaries": ["thruserv", "thru"],
+             "quick": {"checks": 2, "shards": 3, "timeout": 900},
+             "thorough": {"checks": 10, "shards": 8, "timeout": 3400}},
         ],
     },
     "C05": {
@@ -532,3 +535,6 @@ CHECKS["C11"]["technique"] = CHECKS["C11"]["technique"].replace(
 CHECKS["C03"]["level_text"] += (" Unit 'e2e' runs the real binaries (thruserv, `thru host`, `thru join`) as processes: a session is "
                                 "established through the signaling server and the join process must exit 0 within 60 s with exactly "
                                 "the hosted tree (the host's own verdict is not observable from outside and is not judged).")
+CHECKS["C04"]["level_text"] += (" Unit 'e2e' uses the real binaries: thruserv and `thru host` run as processes, a first (and possibly second) "
+                                "`thru join` is killed with SIGKILL a drawn 0-600 ms after it reported its transfer connection (6-48 MB file), the "
+                                "last `thru join` answers the resume prompt with yes and must exit 0 within 90 s with exactly the hosted tree.")
